@@ -458,7 +458,8 @@ pub fn convert<W: std::io::Write + Send + 'static>(
     let input_file_streams: Vec<StreamEntry> = input_file_streams
         .into_iter()
         .map(|(hashset, mut time_files)| {
-            time_files.sort_by(|a, b| a.0.cmp(&b.0));
+            // sort by time and then by name as dedup removes only consecutive duplicates
+            time_files.sort_by(|a, b| a.0.cmp(&b.0).then_with(|| a.1.cmp(&b.1)));
             time_files.dedup(); // remove duplicates
             (hashset, time_files)
         })
